@@ -148,7 +148,19 @@ def run(repo, rep):
                     rep.check(strat == 'PARENS' and parens == (('Text', '('), ('Text', ')')), 'C03.b',
                               'pretty_str[%s,pieces=%s,%s]:only-parens-differ' % (base, pieces, strat), where,
                               'only the PARENS strategy adds one pair of parentheses', 'strategy %s adds %s' % (strat, parens))
-    rep.floor('C03.b:strings', n, 6)
+    # a str/bytes subclass instance is wrapped on every width-dependent path or on none
+    for base in ('str', 'bytes'):
+        shapes = {}
+        for lab, pr, t, fn in string_printer_paths(repo, base, False, lines=(0, 1, 2)):
+            if pr.raised is not None or t is None or pr.assumed('depth_left', True):
+                continue
+            shapes.setdefault(isinstance(t, D.Call), []).append(lab)
+        n += 1
+        rep.check(len(shapes) == 1, 'C03.b', 'pretty_str[%s subclass]:wrapper-independent-of-width' % base, m.relpath,
+                  'the constructor wrapper does not depend on the available width',
+                  'a %s subclass instance is wrapped in its constructor on some width-dependent paths (%s) but not on others (%s): the '
+                  'syntax tree changes with the width' % (base, shapes.get(True, [])[:1], shapes.get(False, [])[:1]), nontrivial=True)
+    rep.floor('C03.b:strings', n, 8)
 
     # ---------------------------------------------------------------- C03.c nest amounts
     n = 0
@@ -178,7 +190,19 @@ def run(repo, rep):
                     n += 1
                     rep.fail('C03.c', '%s:uses-%s' % (f.qualname, call_name(c)), '%s:%d' % (mod.relpath, c.lineno),
                              '%s uses %s: continuation lines are aligned to a column, not to a multiple of the indent setting' % (f.key, call_name(c)))
-    rep.floor('C03.c', n, 6)
+    # the engine turns Nest amounts into line indentation exactly (C04.c instances)
+    from engine.report import Report
+    from . import c04
+    sub = Report('C04', rep.tier, rep.seed, quiet=True, write=False)
+    c04.run(repo, sub)
+    for i in sub.instances:
+        if i.rule == 'C04.c' and (':Nest:indent' in i.construct or 'HARDLINE' in i.construct or 'indent-unchanged' in i.construct):
+            n += 1
+            if i.verdict == 'holds':
+                rep.ok('C03.c', 'engine:' + i.construct, i.where, i.detail)
+            elif i.verdict == 'VIOLATED':
+                rep.fail('C03.c', 'engine:' + i.construct, i.where, 'line indentation is no longer the sum of the enclosing nest amounts: ' + i.detail)
+    rep.floor('C03.c', n, 12)
 
 
 def _fcl(fc):
